@@ -16,7 +16,9 @@ EXPLANATION = (
     "MaxIterations is the k-th iterate); (R2) step lengths: alpha_max handed to the cones is min(.., .., 1), the "
     "result is min(alpha_z, alpha_s), multiplied by max_step_fraction exactly for the combined direction, and "
     "every cone's step_length is bounded by its alpha_max argument; (R3) the tau/kappa ratio tests have the same "
-    "shape; (R4) add_step moves all five components with the same alpha.")
+    "shape; (R4) add_step moves all five components with the same alpha; (R5) iterate 0: the shift into the cone "
+    "interior cancels a negative margin first and adds target >= 1 afterwards, as two separate shifts (the only "
+    "order that is sign-exact in floating point), s in the primal and z in the dual cone.")
 ASSUMPTIONS = [
     'rustc MIR construction and trait resolution are correct',
     '0 <= linesearch_backtrack_step <= 1 and 0 < max_step_fraction <= 1 (settings are not validated by the crate)',
@@ -146,6 +148,7 @@ def run(ctx, rep, tier):
         steplen.cone_step_lengths(rep, F, E, tag, 'C07.R2c')
         add_step(rep, F, tag)
         steplen.interior_shift(rep, F, tag, 'C07.R5')
+        steplen.soc_scalar_cap(rep, F, tag, 'C07.R6')
     from . import units_rules
     R = rep.rule('C07.R4', 'add_step moves x, s, z, tau, kappa with the same alpha')
     R.guard(lambda: units_rules.add_step_units(R, ctx, 'default', ''))
